@@ -117,6 +117,12 @@ def gate(ctx, rec):
       else:
         ctx.ev('gate_finite')
       err = _err(view, new, i, j) if have_metrics else None
+      if pt and not dont_care and i not in rec['poisoned'] and err is not None:
+        # bounded progress (probe, not an oracle): healthy leaves keep getting
+        # fresh roots while other leaves are poisoned / after faults stopped
+        ctx.probe('refresh_evaluations_on_healthy_leaves')
+        if np.isfinite(err) and err < thr:
+          ctx.probe('refresh_accepted_on_healthy_leaves')
       if same:
         ctx.ev('gate')
         if pt and err is not None and (np.isnan(err) or err >= thr):
